@@ -61,7 +61,10 @@ func gen06(seed int64, tier string) []drv.Case {
 			p.Labels = append(p.Labels, fmt.Sprintf("label%d", j))
 		}
 		nf := 1 + r.Intn(4)
-		big := (op == "upload" && ((tier == "thorough" && i%20 == 0) || (tier != "thorough" && i == 0))) || (op == "mount-commit" && tier == "thorough" && i%40 == 7)
+		// (no 1000-file tree for mount-commit: a mount keeps one descriptor per created file and the commit opens every
+		// file at once, so such a case measures the descriptor limit, and every enumerated crash leaves those
+		// descriptors open in the goroutines of the "dead" client)
+		big := (op == "upload" && ((tier == "thorough" && i%20 == 0) || (tier != "thorough" && i == 0)))
 		if big {
 			nf, p.Sampled = 1001+r.Intn(150), true
 			p.Tree = coreh.GenTree(r, r.Int63(), nf, coreh.TreeOpt{Tiny: true})
